@@ -3,6 +3,7 @@
    correspondence (harness/c04.py) evaluates on real stacks. *)
 From Coq Require Import ZArith String.
 Require Import Base M_Slice P_Slice P_PySlice.
+From SS.gen Require Import SrcFacts.
 
 (* wf w = all frames are pairwise distinct objects (nothing else).
    For every world (= every segmentation of the running stack into nested greenlets, any frames
@@ -110,3 +111,11 @@ Theorem C04_py_slice_examples :
   /\ py_slice_spec [0;1;2;3;4;5;6] None (Some 2%Z) (-1) = [6; 5; 4; 3].
 Proof. exact py_slice_spec_examples. Qed.
 Print Assumptions C04_py_slice_examples.
+
+(* source fact (regenerated from stackscope/_types.py on every run, fail-closed): StackSlice is a
+   plain @dataclass whose fields are declared in the order (outer, inner, limit), all defaulting to
+   None -- so the positional constructor StackSlice(a, b, n) means outer=a, inner=b, limit=n, which
+   is the argument order of the model's ASlice / sspec in every theorem above *)
+Theorem C04_stackslice_positional_order : SrcFacts.c04_stackslice_field_order = true.
+Proof. reflexivity. Qed.
+Print Assumptions C04_stackslice_positional_order.
